@@ -63,6 +63,13 @@ def toWire (P : Params) (c : Sender.Chunk) : Reasm.Chunk :=
     ppi := if il && !c.bfrag then 0 else c.ppi,
     userData := ((P.pay c.msg).drop (c.fsn.toNat * P.cfg.maxPayload.toNat)).take c.len }
 
+/-- the pieces `packetize` cuts a payload into: `min(mp, remaining)` bytes per round (mirrors `Sender.fragAux`) -/
+def cutAux (mp : Nat) : Nat → List UInt8 → List (List UInt8)
+  | 0, _ => []
+  | fuel+1, bs => if bs.length = 0 ∨ mp = 0 then [] else bs.take mp :: cutAux mp fuel (bs.drop mp)
+
+def cut (mp : Nat) (bs : List UInt8) : List (List UInt8) := cutAux mp bs.length bs
+
 inductive Op where
   /-- the application writes the bytes `pay nextMsg` with this PPI on stream `si` -/
   | write (si : BitVec 16) (ppi : BitVec 32)
